@@ -3,6 +3,7 @@ package props
 import (
 	"bytes"
 	"fmt"
+	"time"
 
 	"verif/harness/gen"
 	"verif/harness/mon"
@@ -22,8 +23,9 @@ func init() {
 			"testdrv time stamps carry one constant offset per session (Listen stamps the real clock, Sleep moves a virtual one): the monitor requires one offset in [-60 s, 0] consistent with every delivery; exact stamps are decided at the drivers.Reader level",
 			"F8..FF are all treated as real-time (delivered as one-byte messages)",
 		},
-		Require: []string{"runs_l1", "runs_l2", "elisions", "rt_inside_message", "rt_inside_sysex", "sysex_exact_buffer", "split_inside_message", "deliveries_checked", "generator_crosschecks", "sysex_sweep_lengths", "sandwich_chunks", "reconfigured_sessions", "clock_wrap_streams", "giant_sysex_streams"},
-		Run:     runC04,
+		Require:         []string{"runs_l1", "runs_l2", "elisions", "rt_inside_message", "rt_inside_sysex", "sysex_exact_buffer", "split_inside_message", "deliveries_checked", "generator_crosschecks", "sysex_sweep_lengths", "sandwich_chunks", "reconfigured_sessions", "clock_wrap_streams", "giant_sysex_streams", "stall_runs_over_2s", "pauses_over_1s_inside_a_message", "pauses_over_1s_inside_a_sysex"},
+		FakeTimeWorkers: 2,
+		Run:             runC04,
 	})
 }
 
@@ -454,6 +456,60 @@ func runC04(c *mon.Ctx) {
 			c.Violation("l1-giant-sysex", fmt.Sprintf("a sysex of %d bytes under SysExBufferSize %d: delivered message lengths %v, expected [3 %d 1 3]", n, buf, lens, n), in, []int{3, n, 1, 3}, lens)
 		}
 		c.DistinctBytes([]byte(fmt.Sprint("giant", n)))
+	})
+
+	// real pauses between the deliveries (workers on the virtual process clock): seconds, minutes,
+	// hours and days of wall time pass while a message or a sysex is incomplete
+	c.EachFT("stalls", c.N(3000, 200_000), func(i int64, r *mon.Rand) {
+		cfg := liveCfg{sysex: true, clock: true, sense: true, buf: uint32(r.Pick(16, 0, 64))}
+		msgs := gen.LiveSequence(r, r.Range(1, 12), cfg.bufSize(), true)
+		w := gen.Serialize(r, msgs, gen.SerOpts{RunningStatus: true, Realtime: r.P(1, 2)})
+		L := len(w.Bytes)
+		parts := r.Partition(L, r.Pick(1, 2, 5, 9))
+		var cuts []int
+		off := 0
+		for _, p := range parts[:len(parts)-1] {
+			off += p
+			cuts = append(cuts, off)
+		}
+		deltas := make([]int32, len(parts))
+		pauses := make([]time.Duration, len(parts))
+		t0 := time.Now()
+		var total time.Duration
+		for j := range pauses {
+			deltas[j] = int32(r.Intn(300))
+			if r.P(2, 3) {
+				pauses[j] = drawPause(r)
+				total += pauses[j]
+			}
+		}
+		livePause = pauses
+		defer func() { livePause = nil }()
+		k.check(w, cuts, deltas, cfg, i%2 == 0, fmt.Sprintf("real pauses (ms) before the deliveries %v", pauses))
+		// both levels ran with the pauses: the process clock must have advanced accordingly
+		ran := 1
+		if i%2 == 0 {
+			ran = 2
+		}
+		if el := time.Since(t0); el < time.Duration(ran)*total {
+			c.Inconclusive(fmt.Sprintf("virtual process clock advanced %v during a case with %v of pauses", el, time.Duration(ran)*total))
+		}
+		c.Count("stall_runs", 1)
+		if total >= 2*time.Second {
+			c.Count("stall_runs_over_2s", 1)
+		}
+		for j, p := range cuts {
+			for q := range w.EndIdx {
+				if p > w.StartIdx[q] && p <= w.EndIdx[q] && pauses[j+1] >= time.Second {
+					c.Count("pauses_over_1s_inside_a_message", 1)
+					if w.Deliveries[q][0] == 0xF0 {
+						c.Count("pauses_over_1s_inside_a_sysex", 1)
+					}
+					break
+				}
+			}
+		}
+		c.DistinctBytes(w.Bytes, []byte(fmt.Sprint(cuts, pauses)))
 	})
 
 	c.Each("random", c.N(20_000, 3_000_000), func(i int64, r *mon.Rand) {
